@@ -41,6 +41,7 @@ type scenario struct {
 	ExtraBalance          bool
 	LeakEpochs            [2]int // participation forced to 0.3 inside [from, to)
 	CustomSlashingsVector bool
+	WithdrawDelay         uint64 // MIN_VALIDATOR_WITHDRAWABILITY_DELAY when not 0 (short chains reach the end of the slashability window)
 	DepositsFromEpoch     int
 	ForcedSlashings       bool
 	EjectionHigh          bool   // EJECTION_BALANCE just below the maximum: ejections (batched exit queue) become reachable
@@ -81,6 +82,9 @@ func specFor(sc scenario) *common.Spec {
 	if sc.CustomSlashingsVector {
 		spec.EPOCHS_PER_SLASHINGS_VECTOR = 8
 		spec.MIN_VALIDATOR_WITHDRAWABILITY_DELAY = 2
+	}
+	if sc.WithdrawDelay != 0 {
+		spec.MIN_VALIDATOR_WITHDRAWABILITY_DELAY = common.Epoch(sc.WithdrawDelay)
 	}
 	if sc.Family == "massslash" {
 		// a wide hysteresis band keeps the effective balance above the balance after the initial slashing penalty,
